@@ -425,3 +425,17 @@ INTERP = "desolver/utilities/interpolation.py"
 V("C06-t-find-interval-cache", "C06", "C06.9", (DS, "        idx = min(deutil.search_bisection(self.t_eval, t), len(self.y_interpolants) - 1)\n", "        idx = min(deutil.search_bisection(self.t_eval, t), len(self.y_interpolants) - 1)\n        self._last_idx = idx\n"))
 V("C19-w-getitem-cache", "C19", "C19.7", (DS, "                nearest_idx = int(D.ar_numpy.argmin(D.ar_numpy.abs(self.t - index)))\n", "                nearest_idx = int(D.ar_numpy.argmin(D.ar_numpy.abs(self.t - index)))\n                self._nearest = nearest_idx\n"))
 V("C17-s-interp-cache", "C17", "C17.6", (INTERP, "        t2 = t**2\n", "        self._t_last = t\n        t2 = t**2\n"))
+V("C06-u-cache-not-invalidated", "C06", "C06.10", (DS, "                self.t_eval = [i.to(D.ar_numpy.asarray(t)) for i in self.t_eval]\n            self.__t_eval_arr_stale = True\n", "                self.t_eval = [i.to(D.ar_numpy.asarray(t)) for i in self.t_eval]\n"))
+V("C06-v-remove-no-invalidate", "C06", "C06.10", (DS, "        out = self.t_eval.pop(idx), self.y_interpolants.pop(idx)\n        self.__t_eval_arr_stale = True\n", "        out = self.t_eval.pop(idx), self.y_interpolants.pop(idx)\n"))
+V("C03-t-fix-dt-dir-abs-sign", "C03", "C03.9", (DS, "        if D.ar_numpy.sign(self.__dt) != D.ar_numpy.sign(t1 - t0):\n            self.__dt = -self.__dt\n        else:\n            self.__dt = self.__dt\n", "        self.__dt = D.ar_numpy.abs(self.__dt) * D.ar_numpy.sign(t1 - t0)\n"))
+V("C04-v-loop-guard-signed", "C04", "C04.7", (DS, "D.ar_numpy.abs(tf - self.__t[self.counter]) >= D.tol_epsilon(self.__y[self.counter].dtype))) and not end_int:", "D.ar_numpy.sign(self.dt) * (tf - self.__t[self.counter]) >= D.tol_epsilon(self.__y[self.counter].dtype))) and not end_int:"))
+V("C02-w-newton-tol-swapped", "C02", "C02.6", (ITY, "            desired_tol = D.ar_numpy.max(D.ar_numpy.abs(self.atol + D.ar_numpy.max(D.ar_numpy.abs(self.rtol * initial_state)))) * 0.5", "            desired_tol = 0.5 * D.ar_numpy.max(self.rtol + self.atol * D.ar_numpy.max(D.ar_numpy.abs(initial_state)))"))
+V("C13-t-reset-early-return", "C13", "C13.6", (DS, "        \"\"\"Resets the system to the initial time.\"\"\"\n", "        \"\"\"Resets the system to the initial time.\"\"\"\n        if self.__int_status == 0:\n            return\n"))
+V("C20-t-reset-early-return", "C20", "C20.6", (DS, "        \"\"\"Resets the system to the initial time.\"\"\"\n", "        \"\"\"Resets the system to the initial time.\"\"\"\n        if self.__int_status == 0:\n            return\n"))
+V("C15-w-relative-residual", "C15", "C15.7", (OPT, "        success = success or Fn1 < 0.8 * tol\n", "        success = success or Fn1 < 0.8 * tol * (1 + Fn0)\n"))
+V("C12-v-handler-reraise-only-silent", "C12", "silent", (DS, "        except Exception as e:\n            new_e = etypes.FailedIntegration(\"Failed to integrate system\")", "        except etypes.FailedIntegration:\n            raise\n        except Exception as e:\n            new_e = etypes.FailedIntegration(\"Failed to integrate system\")"))
+V("C13-u-inplace-on-alias", "C13", "C13.7", (ITY, "                next_timestep = D.ar_numpy.copy(dt0)\n", "                next_timestep = dt0\n"))
+V("C19-x-remove-last-always", "C19", "C19.8", (DS, "                                self.__sol.remove_interpolant(-1 if dTime >= 0 else 0)\n", "                                self.__sol.remove_interpolant(-1)\n"))
+
+V("C08-w-window-direction-hoisted", "C08", "C08.9", (DS, "        end_int = False\n        self.__allocate_soln_space(total_steps)", "        end_int = False\n        forward = self.dt >= 0\n        self.__allocate_soln_space(total_steps)"), (DS, "                            if dTime >= 0:\n                                true_positive", "                            if forward:\n                                true_positive"))
+V("C08-x-window-by-current-dt-silent", "C08", "silent", (DS, "                            if dTime >= 0:\n                                true_positive", "                            if self.dt >= 0:\n                                true_positive"))
